@@ -291,7 +291,7 @@ def class_case(draw):
                 tcfg[k] = scfg[k] = draw(vs)
         flags.add('options')
     elif cls == 'MQTTOut':
-        host, port, base = draw(st.sampled_from(['broker', 'mq.example.com', '10.0.0.2'])), draw(st.sampled_from([None, 1883, 1234])), draw(st.sampled_from([None, 'base', 'a/b/']))
+        host, port, base = draw(st.sampled_from(['broker', 'mq.example.com', '10.0.0.2', ''])), draw(st.sampled_from([None, 1883, 1234])), draw(st.sampled_from([None, 'base', 'a/b/']))   # grammar: mqtt:// [[host][:port]] - both optional on their own
         maps = draw(st.lists(st.builds(lambda t, p, d, q, r: (t, p, d, q, r), st.sampled_from(['topic', 'cam', 'main']), st.sampled_from([None, 'image', 'data', 'data/sub', 'data/a/b']),
                                        st.sampled_from([None, 'out', 'x/y']), st.sampled_from([None, 0, 1, 2]), st.sampled_from([None, True, False])),
                              max_size=3, unique_by=lambda m: (m[0], m[1])))
@@ -317,7 +317,7 @@ def class_case(draw):
             gopts[-1][2] = str(gopts[-1][1])
         out = f'mqtt://{host}' + (f':{port}' if port else '') + (f'/{base}' if base else '') + render_options(gopts) + ''.join(f' ; {m}' for m in mtexts)
         tcfg['outputs'] = out
-        scfg.update({'broker_host': host, **({'broker_port': port} if port else {}), **({'base_topic': base} if base else {}), **opts_dict(gopts)})
+        scfg.update({**({'broker_host': host} if host else {}), **({'broker_port': port} if port else {}), **({'base_topic': base} if base else {}), **opts_dict(gopts)})
         if mstructs:
             scfg['mappings'] = mstructs
         if maps: flags.add('options')
